@@ -2,6 +2,7 @@ package flows
 
 import (
 	"fmt"
+	"sort"
 	"strings"
 
 	"github.com/nyaruka/gocommon/i18n"
@@ -114,15 +115,26 @@ func (t *TemplateTranslation) Preview(vars []*TemplatingVariable) *MsgContent {
 
 	for _, comp := range t.Components() {
 		content := comp.Content()
-		for key, index := range comp.Variables() {
-			variable := vars[index]
+
+		// variables are taken in a fixed order and substituted in a single pass, so that the preview doesn't depend on
+		// map ordering, not even for a value which itself looks like a placeholder
+		keys := make([]string, 0, len(comp.Variables()))
+		for key := range comp.Variables() {
+			keys = append(keys, key)
+		}
+		sort.Strings(keys)
+
+		replacements := make([]string, 0, 2*len(keys))
+		for _, key := range keys {
+			variable := vars[comp.Variables()[key]]
 
 			if variable.Type == "text" {
-				content = strings.ReplaceAll(content, fmt.Sprintf("{{%s}}", key), variable.Value)
+				replacements = append(replacements, fmt.Sprintf("{{%s}}", key), variable.Value)
 			} else if (variable.Type == "image" || variable.Type == "video" || variable.Type == "document") && utils.IsValidAttachment(variable.Value) {
 				attachments = append(attachments, utils.Attachment(variable.Value))
 			}
 		}
+		content = strings.NewReplacer(replacements...).Replace(content)
 
 		if content != "" {
 			if comp.Type() == "header/text" || comp.Type() == "body/text" || comp.Type() == "footer/text" {
